@@ -1,6 +1,6 @@
 """Runner for the solver-based checks (see /verif/DESIGN.md section 2, 'Runner')."""
 import argparse, fnmatch, json, os, re, resource, signal, subprocess, sys, threading, time, tomllib
-from concurrent.futures import ThreadPoolExecutor
+from concurrent.futures import ThreadPoolExecutor, as_completed
 
 VERIF = os.path.dirname(os.path.dirname(os.path.abspath(__file__)))
 REPO = os.environ.get('VERIF_REPO', '/repo')
@@ -235,7 +235,7 @@ def native_build(profile):
         cmd = ['cargo', 'build', '--offline', '--bin', 'replay']
         if profile == 'release':
             cmd.append('--release')
-        env = dict(ENV, CARGO_TARGET_DIR=NTARGET)
+        env = dict(ENV, CARGO_TARGET_DIR=NTARGET, RUSTFLAGS='--cfg georust_geo_verif')
         os.makedirs(CACHE, exist_ok=True)
         p = subprocess.run(cmd, cwd=KANI_DIR, env=env, stdout=subprocess.PIPE, stderr=subprocess.STDOUT, text=True)
         ok = p.returncode == 0
@@ -379,7 +379,7 @@ def main(argv):
             if smt_jobs:
                 smt_future = ex.submit(run_smt, pid, a.tier, seed, logdir)
             futs = [ex.submit(run_harness, h, f, a.tier, logdir) for h, f in jobs]
-            for fu in futs:
+            for fu in as_completed(futs):
                 r = fu.result()
                 results.append(r)
                 log('[%s] %-44s %-12s %6.0fs  %s' % (pid, r['harness'], r['status'], r['wall_s'], r['reason'][:110]))
